@@ -73,6 +73,12 @@ Definition new_label (c : conn) (exitc : option conn) (r : fprow) : jstep :=
 Definition acc_label (c : conn) (exitc : option conn) : jstep :=
   mk_js (Some c) exitc (c_trip c) 0 true 0.
 
+(* the first-waiting cap tested before a boarding is stored as an access candidate
+   (reverse_calculation.cpp, the max_first_waiting_time test on reverseAccessJourneysSteps) *)
+Definition fw_cap (p : params) (k : calc) (c : conn) : Prop :=
+  k_dep k = -1 \/ q_maxfw p <= 0 \/
+  exists ar, row_of (c_from c) (k_accfp k) = Some ar /\ c_dep c - k_dep k - fp_time ar <= q_maxfw p.
+
 Lemma rev_fp_step_cases p k c minw exitc taur steps racc r :
   exists taur' steps' racc',
     rev_fp_step p k c minw exitc (taur, steps, racc) r = (taur', steps', racc') /\
@@ -84,6 +90,7 @@ Lemma rev_fp_step_cases p k c minw exitc taur steps racc r :
      (c_from c = fp_node r /\
       (k_dep k = -1 \/
        exists ar, row_of (c_from c) (k_accfp k) = Some ar /\ k_dep k <= c_dep c - fp_time ar - minw) /\
+      fw_cap p k c /\
       racc' = upd racc (fp_node r) (Some (acc_label c exitc)))).
 Proof.
   unfold rev_fp_step.
@@ -120,6 +127,7 @@ Proof.
                (c_from c = fp_node r /\
                 (k_dep k = -1 \/
                  exists ar, row_of (c_from c) (k_accfp k) = Some ar /\ k_dep k <= c_dep c - fp_time ar - minw) /\
+                fw_cap p k c /\
                 A1 = upd racc (fp_node r) (Some (acc_label c exitc)))).
   { subst A1.
     destruct (Nat.eqb (c_from c) (fp_node r) &&
@@ -141,11 +149,16 @@ Proof.
               | Some ar => c_dep c - k_dep k - fp_time ar <=? q_maxfw p
               | None => false
               end) eqn:E5; [|left; reflexivity].
-    right. split; [exact E3|]. split; [|reflexivity].
-    apply orb_prop in E4. destruct E4 as [E4|E4].
-    - left. apply Z.eqb_eq in E4. exact E4.
-    - right. destruct (row_of (c_from c) (k_accfp k)) as [ar|]; [|discriminate].
-      exists ar. split; [reflexivity|]. apply Z.geb_le in E4. exact E4. }
+    right. split; [exact E3|]. split; [|split; [|reflexivity]].
+    - apply orb_prop in E4. destruct E4 as [E4|E4].
+      + left. apply Z.eqb_eq in E4. exact E4.
+      + right. destruct (row_of (c_from c) (k_accfp k)) as [ar|]; [|discriminate].
+        exists ar. split; [reflexivity|]. apply Z.geb_le in E4. exact E4.
+    - unfold fw_cap. apply orb_prop in E5. destruct E5 as [E5|E5]; [apply orb_prop in E5; destruct E5 as [E5|E5]|].
+      + left. apply Z.eqb_eq in E5. exact E5.
+      + right. left. apply Z.leb_le in E5. exact E5.
+      + right. right. destruct (row_of (c_from c) (k_accfp k)) as [ar|]; [|discriminate].
+        exists ar. split; [reflexivity|]. apply Z.leb_le in E5. exact E5. }
   destruct (c_dep c - fp_time r - minw >? taur (fp_node r)) eqn:E6.
   - exists (upd taur (fp_node r) (c_dep c - fp_time r - minw)),
            (upd steps (fp_node r) (new_label c exitc r)), A1.
@@ -512,7 +525,8 @@ Section Invariant.
   Definition acc_ok (taur : nat -> Z) (n : nat) (j : jstep) : Prop :=
     exists b e, core taur j b e /\ c_from b = n /\ js_walk j = 0 /\
       (k_dep k = -1 \/
-       exists a, row_of n (k_accfp k) = Some a /\ k_dep k <= c_dep b - fp_time a - minw_eff p b).
+       exists a, row_of n (k_accfp k) = Some a /\ k_dep k <= c_dep b - fp_time a - minw_eff p b) /\
+      fw_cap p k b.
 
   Record Inv (taur : nat -> Z) (steps : nat -> jstep) (racc : nat -> option jstep) (ov : nat -> tqd) : Prop := {
     i_lab : forall n b, js_enter (steps n) = Some b -> lab_ok taur n (steps n) b;
@@ -534,7 +548,7 @@ Section Invariant.
 
   Lemma acc_ok_mono taur taur' n j : (forall x, taur x <= taur' x) -> acc_ok taur n j -> acc_ok taur' n j.
   Proof.
-    intros M (b & e & H1 & H2 & H3 & H4). exists b, e. split; [apply (core_mono taur); assumption|].
+    intros M (b & e & H1 & H2 & H3 & H4 & H5). exists b, e. split; [apply (core_mono taur); assumption|].
     repeat split; assumption.
   Qed.
 
@@ -607,12 +621,12 @@ Section Invariant.
     assert (HI1 : Inv t' s' racc ov).
     { destruct H1 as [[E1 E2]|(Hmax & Hgt & E1 & E2)]; subst t' s'; [exact HI|].
       apply Inv_upd_label; assumption. }
-    destruct H2 as [E3|(Ef & Hk & E3)]; subst a'; [exact HI1|].
+    destruct H2 as [E3|(Ef & Hk & Hcap & E3)]; subst a'; [exact HI1|].
     apply Inv_upd_acc; [exact HI1|].
     destruct (i_ov _ _ _ _ HI1 _ _ Hex) as (X1 & X2 & X3 & X4).
     exists c, e. unfold core, acc_label, mk_js. cbn [js_enter js_exit js_trip js_walk].
     split; [repeat split; assumption|]. split; [exact Ef|]. split; [reflexivity|].
-    rewrite <- Ef. exact Hk.
+    split; [rewrite <- Ef; exact Hk|exact Hcap].
   Qed.
 
   Lemma fp_fold_inv ov c e :
@@ -935,8 +949,9 @@ Proof.
   destruct (scan_inv d s p k Hminw L (rev_init k) HG HS H0) as [HI _]. exact HI.
 Qed.
 
-(* the theorem without the two hypotheses the proof does not use (wf_tables_b, 0 <= k_arr k) *)
-Lemma rev_journey_ok_gen : forall d s p acc egr k st bestdep node start fuel legs last,
+(* the theorem without the two hypotheses the proof does not use (wf_tables_b, 0 <= k_arr k), and with
+   the first-waiting cap of the stored access candidate (last conjunct) *)
+Lemma rev_journey_ok_gen_cap : forall d s p acc egr k st bestdep node start fuel legs last,
   wf_data_b d = true -> wf_params_b p = true ->
   rev_pre d s p acc egr k ->
   rev_scan d p k false = Ok st ->
@@ -949,14 +964,16 @@ Lemma rev_journey_ok_gen : forall d s p acc egr k st bestdep node start fuel leg
     (* limits that C02 needs *)
     0 <= bestdep /\ k_arr k - bestdep <= q_maxtt p /\
     (exists el, last_alight legs = Some el /\ c_arr el + fp_time er <= k_arr k) /\
-    (k_dep k <> -1 -> k_dep k <= bestdep).
+    (k_dep k <> -1 -> k_dep k <= bestdep) /\
+    (exists b1, first_board legs = Some b1 /\ c_from b1 = node /\
+       (k_dep k = -1 \/ q_maxfw p <= 0 \/ c_dep b1 - k_dep k - fp_time ar <= q_maxfw p)).
 Proof.
   intros d s p acc egr k st bestdep node start fuel legs last Hwf Hp Hpre Hscan Hbest Hstart Hreb.
   pose proof (rev_scan_inv d s p acc egr k st Hwf Hp Hpre Hscan) as HI.
   pose proof (best_access_spec p k st) as HB. rewrite Hbest in HB.
   destruct HB as (j & b & ar & Bj & Bb & Bar & Bt & B0 & Bspan).
   rewrite Hstart in Bj. inversion Bj; subst j. clear Bj.
-  destruct (i_acc _ _ _ _ _ _ _ _ HI node start Hstart) as (b0 & e0 & HC & Hfrom & Hwalk & Hdep).
+  destruct (i_acc _ _ _ _ _ _ _ _ HI node start Hstart) as (b0 & e0 & HC & Hfrom & Hwalk & Hdep & Hcap).
   pose proof HC as (C1 & C2 & C3 & C4 & C5 & C6 & C7 & C8 & C9 & C10 & C11).
   rewrite Bb in C1. inversion C1; subst b0. clear C1.
   destruct fuel as [|f]; [rewrite (rebuild_zero _ _ _ _ b e0 Bb C2) in Hreb; discriminate|].
@@ -973,10 +990,11 @@ Proof.
     rewrite (rp_taur _ _ _ _ _ _ Hpre) in Hseed.
     pose proof (conn_arr_nonneg d el Hwf R6) as Hnn.
     destruct (row_of (c_to el) egr) as [er|] eqn:Eer; [|lia].
-    rewrite (rp_acc _ _ _ _ _ _ Hpre) in Bar, Hdep.
+    unfold fw_cap in Hcap. rewrite Hfrom in Hcap.
+    rewrite (rp_acc _ _ _ _ _ _ Hpre) in Bar, Hdep, Hcap.
     exists ar, er, (c_to el).
     split; [exact R5|]. split; [exact Bar|]. split; [exact Eer|].
-    split; [|split; [exact B0|split; [exact Bspan|split]]].
+    split; [|split; [exact B0|split; [exact Bspan|split; [|split]]]].
     + unfold journey_ok_b. rewrite rev_unit. cbv beta iota zeta. rewrite rev_involutive.
       rewrite R1, R3, R4.
       destruct (row_of_some _ _ _ Bar) as [N1 N2]. destruct (row_of_some _ _ _ Eer) as [N3 N4].
@@ -985,6 +1003,31 @@ Proof.
     + exists el. split; [exact R4|]. lia.
     + intros Hne. destruct Hdep as [Hdep|(a & Ha & Hle)]; [contradiction|].
       rewrite Bar in Ha. inversion Ha; subst a. lia.
+    + exists b. split; [exact R3|]. split; [exact Hfrom|].
+      destruct Hcap as [Hc|[Hc|(a & Ha & Hle)]]; [left; exact Hc|right; left; exact Hc|].
+      rewrite Bar in Ha. inversion Ha; subst a. right. right. exact Hle.
+Qed.
+
+Lemma rev_journey_ok_gen : forall d s p acc egr k st bestdep node start fuel legs last,
+  wf_data_b d = true -> wf_params_b p = true ->
+  rev_pre d s p acc egr k ->
+  rev_scan d p k false = Ok st ->
+  best_access p k st = Some (bestdep, node) ->
+  r_acc st node = Some start ->
+  rebuild fuel (r_steps st) start [] None = Some (legs, last) ->
+  exists ar er ln,
+    last = Some ln /\ row_of node acc = Some ar /\ row_of ln egr = Some er /\
+    journey_ok_b d s p acc egr bestdep (walk_step ar :: legs ++ [walk_step er]) = true /\
+    (* limits that C02 needs *)
+    0 <= bestdep /\ k_arr k - bestdep <= q_maxtt p /\
+    (exists el, last_alight legs = Some el /\ c_arr el + fp_time er <= k_arr k) /\
+    (k_dep k <> -1 -> k_dep k <= bestdep).
+Proof.
+  intros d s p acc egr k st bestdep node start fuel legs last Hwf Hp Hpre Hscan Hbest Hstart Hreb.
+  destruct (rev_journey_ok_gen_cap d s p acc egr k st bestdep node start fuel legs last
+                                   Hwf Hp Hpre Hscan Hbest Hstart Hreb)
+    as (ar & er & ln & L1 & L2 & L3 & L4 & L5 & L6 & L7 & L8 & _).
+  exists ar, er, ln. repeat (split; [assumption|]). exact L8.
 Qed.
 
 Theorem rev_journey_ok : forall d s p acc egr k st bestdep node start fuel legs last,
@@ -1116,7 +1159,44 @@ Proof.
   - right. unfold with_rev, k, mk_calc. cbn [k_dep]. rewrite Hfwd. reflexivity.
 Qed.
 
-(* what calc_reverse hands to optimizeJourney, for every state satisfying the precondition *)
+(* what calc_reverse hands to optimizeJourney, for every state satisfying the precondition
+   (last conjunct: the first boarding respects the first-waiting cap) *)
+Corollary calc_reverse_ok_cap d s p acc egr k res :
+  wf_data_b d = true -> wf_params_b p = true ->
+  rev_pre d s p acc egr k ->
+  calc_reverse d p k = Ok res ->
+  exists bestdep ar legs er el js1 used,
+    journey_ok_b d s p acc egr bestdep (walk_step ar :: legs ++ [walk_step er]) = true /\
+    optimize (OPT_FUEL d) d (walk_step ar :: legs ++ [walk_step er]) [] [] = OptDone js1 used /\
+    res = (emit d p bestdep js1, used) /\
+    0 <= bestdep /\ k_arr k - bestdep <= q_maxtt p /\ In ar acc /\ In er egr /\
+    last_alight legs = Some el /\ c_arr el + fp_time er <= k_arr k /\
+    (k_dep k <> -1 -> k_dep k <= bestdep) /\
+    (exists b1, first_board legs = Some b1 /\ c_from b1 = fp_node ar /\
+       (k_dep k = -1 \/ q_maxfw p <= 0 \/ c_dep b1 - k_dep k - fp_time ar <= q_maxfw p)).
+Proof.
+  intros Hwf Hp Hpre Hcalc. unfold calc_reverse in Hcalc.
+  destruct (rev_scan d p k false) as [st| | | | | | | |] eqn:Hscan; try discriminate.
+  cbn [bind] in Hcalc. destruct (r_count st =? 0); [discriminate|].
+  unfold rev_journey in Hcalc.
+  destruct (best_access p k st) as [[bestdep node]|] eqn:Hbest; [|discriminate].
+  destruct (r_acc st node) as [start|] eqn:Hstart; [|discriminate].
+  destruct (rebuild (REBUILD_FUEL d) (r_steps st) start [] None) as [[legs last0]|] eqn:Hreb; [|discriminate].
+  destruct (rev_journey_ok_gen_cap d s p acc egr k st bestdep node start (REBUILD_FUEL d) legs last0
+                                   Hwf Hp Hpre Hscan Hbest Hstart Hreb)
+    as (ar & er & ln & L1 & L2 & L3 & L4 & L5 & L6 & (el & L7 & L8) & L9 & (b1 & L10 & L11 & L12)).
+  rewrite (rp_acc _ _ _ _ _ _ Hpre), (rp_egr _ _ _ _ _ _ Hpre), L1, L2, L3 in Hcalc.
+  destruct (optimize (OPT_FUEL d) d (walk_step ar :: legs ++ [walk_step er]) [] []) as [js1 used| |] eqn:Hopt;
+    try discriminate.
+  inversion Hcalc; subst res. clear Hcalc.
+  exists bestdep, ar, legs, er, el, js1, used.
+  split; [exact L4|]. split; [exact Hopt|]. split; [reflexivity|]. split; [exact L5|]. split; [exact L6|].
+  split; [exact (proj2 (row_of_some _ _ _ L2))|]. split; [exact (proj2 (row_of_some _ _ _ L3))|].
+  split; [exact L7|]. split; [exact L8|]. split; [exact L9|].
+  exists b1. split; [exact L10|]. split; [|exact L12].
+  rewrite L11. symmetry. exact (proj1 (row_of_some _ _ _ L2)).
+Qed.
+
 Corollary calc_reverse_ok d s p acc egr k res :
   wf_data_b d = true -> wf_params_b p = true ->
   rev_pre d s p acc egr k ->
@@ -1129,24 +1209,10 @@ Corollary calc_reverse_ok d s p acc egr k res :
     last_alight legs = Some el /\ c_arr el + fp_time er <= k_arr k /\
     (k_dep k <> -1 -> k_dep k <= bestdep).
 Proof.
-  intros Hwf Hp Hpre Hcalc. unfold calc_reverse in Hcalc.
-  destruct (rev_scan d p k false) as [st| | | | | | | |] eqn:Hscan; try discriminate.
-  cbn [bind] in Hcalc. destruct (r_count st =? 0); [discriminate|].
-  unfold rev_journey in Hcalc.
-  destruct (best_access p k st) as [[bestdep node]|] eqn:Hbest; [|discriminate].
-  destruct (r_acc st node) as [start|] eqn:Hstart; [|discriminate].
-  destruct (rebuild (REBUILD_FUEL d) (r_steps st) start [] None) as [[legs last0]|] eqn:Hreb; [|discriminate].
-  destruct (rev_journey_ok_gen d s p acc egr k st bestdep node start (REBUILD_FUEL d) legs last0
-                               Hwf Hp Hpre Hscan Hbest Hstart Hreb)
-    as (ar & er & ln & L1 & L2 & L3 & L4 & L5 & L6 & (el & L7 & L8) & L9).
-  rewrite (rp_acc _ _ _ _ _ _ Hpre), (rp_egr _ _ _ _ _ _ Hpre), L1, L2, L3 in Hcalc.
-  destruct (optimize (OPT_FUEL d) d (walk_step ar :: legs ++ [walk_step er]) [] []) as [js1 used| |] eqn:Hopt;
-    try discriminate.
-  inversion Hcalc; subst res. clear Hcalc.
-  exists bestdep, ar, legs, er, el, js1, used.
-  split; [exact L4|]. split; [exact Hopt|]. split; [reflexivity|]. split; [exact L5|]. split; [exact L6|].
-  split; [exact (proj2 (row_of_some _ _ _ L2))|]. split; [exact (proj2 (row_of_some _ _ _ L3))|].
-  split; [exact L7|]. split; [exact L8|exact L9].
+  intros Hwf Hp Hpre Hcalc.
+  destruct (calc_reverse_ok_cap d s p acc egr k res Hwf Hp Hpre Hcalc)
+    as (bestdep & ar & legs & er & el & js1 & used & L1 & L2 & L3 & L4 & L5 & L6 & L7 & L8 & L9 & L10 & _).
+  exists bestdep, ar, legs, er, el, js1, used. repeat (split; [assumption|]). exact L10.
 Qed.
 
 Lemma wf_params_time p : wf_params_b p = true -> 0 <= q_time p.
@@ -1155,7 +1221,61 @@ Proof.
   apply Z.leb_le in H. exact H.
 Qed.
 
-(* calculateSingle: whatever it answers was built from a valid journey (both query directions) *)
+(* calculateSingle: whatever it answers was built from a valid journey (both query directions);
+   last conjunct: the first boarding of that journey respects the first-waiting cap of a departure query *)
+Corollary calc_single_ok_cap d s p acc egr fresh res :
+  wf_data_b d = true -> wf_tables_b d p acc egr = true -> wf_params_b p = true ->
+  calc_single d (conn_set d s) p acc egr fresh = Ok res ->
+  exists arr bestdep ar legs er el js1 used,
+    journey_ok_b d s p acc egr bestdep (walk_step ar :: legs ++ [walk_step er]) = true /\
+    optimize (OPT_FUEL d) d (walk_step ar :: legs ++ [walk_step er]) [] [] = OptDone js1 used /\
+    res = (emit d p bestdep js1, used) /\
+    0 <= bestdep /\ arr - bestdep <= q_maxtt p /\ In ar acc /\ In er egr /\
+    last_alight legs = Some el /\ c_arr el + fp_time er <= arr /\
+    (if q_fwd p
+     then q_time p <= bestdep /\
+          exists fs n0, fwd_scan d p (mk_calc d p (conn_set d s) acc egr true true) false = Ok fs /\
+                        best_egress p (mk_calc d p (conn_set d s) acc egr true true) fs = Some (arr, n0)
+     else arr = q_time p) /\
+    (exists b1, first_board legs = Some b1 /\ c_from b1 = fp_node ar /\
+       (q_fwd p = true -> q_maxfw p <= 0 \/ c_dep b1 - q_time p - fp_time ar <= q_maxfw p)).
+Proof.
+  intros Hwf Htab Hp Hcalc. pose proof (wf_params_time p Hp) as Htime.
+  unfold calc_single in Hcalc.
+  destruct (access_reason (negb fresh || nonempty acc) (negb fresh || nonempty egr)); [discriminate|].
+  cbv zeta in Hcalc. set (k := mk_calc d p (conn_set d s) acc egr true true) in *.
+  destruct (q_fwd p) eqn:Hf.
+  - assert (Ek : k_dep k = q_time p) by (unfold k, mk_calc; cbn [k_dep]; rewrite Hf; reflexivity).
+    assert (Eg : (k_dep k >? -1) = true) by (apply Z.gtb_lt; lia).
+    rewrite Eg in Hcalc. cbn [andb] in Hcalc.
+    destruct (fwd_scan d p k false) as [fs| | | | | | | |] eqn:Hscan; try discriminate.
+    cbn [bind] in Hcalc. destruct (f_count fs =? 0); [discriminate|].
+    destruct (best_egress p k fs) as [[best n0]|] eqn:Hbest; [|discriminate].
+    pose proof (calc_single_rev_pre_departure d s p acc egr fs best Htab Hf Hscan) as Hpre.
+    destruct (calc_reverse_ok_cap d s p acc egr _ res Hwf Hp Hpre Hcalc)
+      as (bestdep & ar & legs & er & el & js1 & used & L1 & L2 & L3 & L4 & L5 & L6 & L7 & L8 & L9 & L10 &
+          (b1 & L11 & L12 & L13)).
+    exists best, bestdep, ar, legs, er, el, js1, used.
+    unfold with_rev in L5, L9, L10, L13. cbn [k_arr k_dep] in L5, L9, L10, L13. fold k in L10, L13.
+    rewrite Ek in L10, L13.
+    repeat (split; [assumption|]). split; [split|].
+    + apply L10. lia.
+    + exists fs, n0. split; [reflexivity|exact Hbest].
+    + exists b1. split; [exact L11|]. split; [exact L12|]. intros _.
+      destruct L13 as [L13|[L13|L13]]; [lia|left; exact L13|right; exact L13].
+  - rewrite andb_false_r in Hcalc.
+    assert (Ek : k_arr k = q_time p) by (unfold k, mk_calc; cbn [k_arr]; rewrite Hf; reflexivity).
+    destruct (k_arr k >? -1); [|discriminate].
+    pose proof (calc_single_rev_pre_arrival d s p acc egr Htab) as Hpre. cbv zeta in Hpre. fold k in Hpre.
+    destruct (calc_reverse_ok_cap d s p acc egr _ res Hwf Hp Hpre Hcalc)
+      as (bestdep & ar & legs & er & el & js1 & used & L1 & L2 & L3 & L4 & L5 & L6 & L7 & L8 & L9 & L10 &
+          (b1 & L11 & L12 & L13)).
+    exists (q_time p), bestdep, ar, legs, er, el, js1, used.
+    unfold with_rev in L5, L9. cbn [k_arr] in L5, L9. rewrite Ek in L5, L9.
+    repeat (split; [assumption|]). split; [reflexivity|].
+    exists b1. split; [exact L11|]. split; [exact L12|]. intros Hx. discriminate Hx.
+Qed.
+
 Corollary calc_single_ok d s p acc egr fresh res :
   wf_data_b d = true -> wf_tables_b d p acc egr = true -> wf_params_b p = true ->
   calc_single d (conn_set d s) p acc egr fresh = Ok res ->
@@ -1171,34 +1291,10 @@ Corollary calc_single_ok d s p acc egr fresh res :
                         best_egress p (mk_calc d p (conn_set d s) acc egr true true) fs = Some (arr, n0)
      else arr = q_time p).
 Proof.
-  intros Hwf Htab Hp Hcalc. pose proof (wf_params_time p Hp) as Htime.
-  unfold calc_single in Hcalc.
-  destruct (access_reason (negb fresh || nonempty acc) (negb fresh || nonempty egr)); [discriminate|].
-  cbv zeta in Hcalc. set (k := mk_calc d p (conn_set d s) acc egr true true) in *.
-  destruct (q_fwd p) eqn:Hf.
-  - assert (Ek : k_dep k = q_time p) by (unfold k, mk_calc; cbn [k_dep]; rewrite Hf; reflexivity).
-    assert (Eg : (k_dep k >? -1) = true) by (apply Z.gtb_lt; lia).
-    rewrite Eg in Hcalc. cbn [andb] in Hcalc.
-    destruct (fwd_scan d p k false) as [fs| | | | | | | |] eqn:Hscan; try discriminate.
-    cbn [bind] in Hcalc. destruct (f_count fs =? 0); [discriminate|].
-    destruct (best_egress p k fs) as [[best n0]|] eqn:Hbest; [|discriminate].
-    pose proof (calc_single_rev_pre_departure d s p acc egr fs best Htab Hf Hscan) as Hpre.
-    destruct (calc_reverse_ok d s p acc egr _ res Hwf Hp Hpre Hcalc)
-      as (bestdep & ar & legs & er & el & js1 & used & L1 & L2 & L3 & L4 & L5 & L6 & L7 & L8 & L9 & L10).
-    exists best, bestdep, ar, legs, er, el, js1, used.
-    unfold with_rev in L5, L9, L10. cbn [k_arr k_dep] in L5, L9, L10. fold k in L10. rewrite Ek in L10.
-    repeat (split; [assumption|]). split.
-    + apply L10. lia.
-    + exists fs, n0. split; [reflexivity|exact Hbest].
-  - rewrite andb_false_r in Hcalc.
-    assert (Ek : k_arr k = q_time p) by (unfold k, mk_calc; cbn [k_arr]; rewrite Hf; reflexivity).
-    destruct (k_arr k >? -1); [|discriminate].
-    pose proof (calc_single_rev_pre_arrival d s p acc egr Htab) as Hpre. cbv zeta in Hpre. fold k in Hpre.
-    destruct (calc_reverse_ok d s p acc egr _ res Hwf Hp Hpre Hcalc)
-      as (bestdep & ar & legs & er & el & js1 & used & L1 & L2 & L3 & L4 & L5 & L6 & L7 & L8 & L9 & L10).
-    exists (q_time p), bestdep, ar, legs, er, el, js1, used.
-    unfold with_rev in L5, L9. cbn [k_arr] in L5, L9. rewrite Ek in L5, L9.
-    repeat (split; [assumption|]). reflexivity.
+  intros Hwf Htab Hp Hcalc.
+  destruct (calc_single_ok_cap d s p acc egr fresh res Hwf Htab Hp Hcalc)
+    as (arr & bestdep & ar & legs & er & el & js1 & used & L1 & L2 & L3 & L4 & L5 & L6 & L7 & L8 & L9 & L10 & _).
+  exists arr, bestdep, ar, legs, er, el, js1, used. repeat (split; [assumption|]). exact L10.
 Qed.
 
 Print Assumptions rev_journey_ok.
@@ -1206,6 +1302,7 @@ Print Assumptions calc_single_rev_pre_arrival.
 Print Assumptions calc_single_rev_pre_departure.
 Print Assumptions calc_reverse_ok.
 Print Assumptions calc_single_ok.
+Print Assumptions calc_single_ok_cap.
 
 (* non-vacuity: the hypotheses of calc_single_ok hold, and calc_single answers, in both directions *)
 From TrV Require Import Examples.
